@@ -79,7 +79,7 @@ def rand_cards(r):
     if r.random() < 0.2:
         t["alphaem"] = 0.5
     if r.random() < 0.7:
-        t["QED"] = r.choice([0, 1])
+        t["QED"] = r.choice([0, 1, 2])
     if r.random() < 0.5:
         t["CKM"] = [0.9, 0.1, 0.0, 0.1, 0.9, 0.0, 0.0, 0.0, 1.0]
     t["mc"] = 1.51
@@ -172,10 +172,17 @@ def search_runs(chk, r, n):
         t = cards.theory(PTO=r.choice([0, 1]), FNS=scheme, NfFF=r.choice([3, 4]), TMC=tmc, CKM=r.choice([cards.CKM_DEFAULT, [0.97428, 0.2253, 0.00347, 0.2252, 0.97345, 0.041, 0.00862, 0.0403, 0.999152]]))
         if r.random() < 0.3:
             del t["PTODIS"]
+        # optional keys (read with a default by the code): a card may omit them
+        for opt in ("MZ", "SIN2TW", "FONLLParts"):
+            if r.random() < 0.35 and not (opt == "MZ" and process == "CC"):
+                t.pop(opt, None)
         grid = cards.default_grid(7, 1e-2)
         if r.random() < 0.5:
             grid = list(reversed(grid))  # legal: the interpolator sorts it
         o = cards.obs(obs, prDIS=process, ProjectileDIS=r.choice(list(cards.PROJECTILES)) if process == "CC" else r.choice(["electron", "positron"]), TargetDIS=tgt, interpolation_xgrid=grid)
+        proj_given = o["ProjectileDIS"]
+        if process != "CC" and proj_given == "electron" and r.random() < 0.3:
+            del o["ProjectileDIS"]  # optional: defaults to the electron
         t0, o0 = copy.deepcopy(t), copy.deepcopy(o)
         problems = []
         try:
@@ -201,7 +208,7 @@ def search_runs(chk, r, n):
                 for kin, res_ in zip(kins, out[name]):
                     if float(res_.x) != kin["x"] or float(res_.Q2) != kin["Q2"]:
                         problems.append("results not in the order of the request")
-            if list(out["pids"]) != realrun.BASIS or out["projectilePID"] != cards.PROJECTILES[o0["ProjectileDIS"]]:
+            if list(out["pids"]) != realrun.BASIS or out["projectilePID"] != cards.PROJECTILES[proj_given]:
                 problems.append("pids / projectilePID wrong")
         except Exception as e:
             chk.extra.setdefault("search_exceptions", {})
